@@ -28,6 +28,28 @@ def replay_engine(crate, scenario, oid, what, label="BOUNDED (fallback, consulte
 def _hist(crate, scenario, prop, what):
     return replay_engine(crate, scenario, "%s.history.%s" % (prop, scenario), what, label="HISTORY REPLAYED ON THE REAL CODE (thorough tier; regression of a repaired defect; one history, not a proof): ")
 
+def script_engine(script, scenario, oid, what, label="BOUNDED (fallback / thorough tier; executed on the real binary): "):
+    """a replay script under /verif/replay that prints `RESULT <scenario> ok|VIOLATED ...`"""
+    def eng(prop, tier, work):
+        out = {"obligations": {}, "violations": [], "tool_errors": [], "cmds": [], "trusted": [], "functions": [], "coverage": {}}
+        here = os.path.dirname(os.path.dirname(os.path.abspath(__file__)))
+        out["cmds"].append("replay/%s  (real binary)" % script)
+        try:
+            p = subprocess.run([os.path.join(here, "replay", script)], capture_output=True, text=True, timeout=3000)
+        except subprocess.TimeoutExpired:
+            out["tool_errors"].append("fallback %s: timeout" % scenario); return out
+        m = re.search(r"RESULT %s (ok|VIOLATED)(.*)" % re.escape(scenario), p.stdout)
+        if not m:
+            out["tool_errors"].append("fallback %s: no result: %s" % (scenario, (p.stdout + p.stderr)[-400:])); return out
+        out["obligations"][oid] = {"unit": "replay/" + script, "clause": label + what, "instances": 1, "ok": m.group(1) == "ok", "back_end": "execution of the real binary", "kind": "execution"}
+        if m.group(1) != "ok":
+            out["violations"].append({"property": prop, "obligation": oid, "unit": "replay/" + script, "item": None, "verus_message": "bounded execution found a failing input",
+                                      "sites": [{"item": None, "file": None, "line": None, "stmt": scenario}], "clause": what, "verus_output": p.stdout[-2000:],
+                                      "counterexample": {"failing_input": m.group(2).strip(), "replay_cmd": "replay/" + script},
+                                      "note": "found by bounded execution of the real binary"})
+        return out
+    return eng
+
 def nixtable_engine(prop, tier, work):
     """validates by execution the assumed nix signal table contract used by unit `names` (not a proof: an executed table check)"""
     out = {"obligations": {}, "violations": [], "tool_errors": [], "cmds": [], "trusted": [], "functions": [], "coverage": {}}
@@ -220,5 +242,9 @@ PROPS["C13"]["thorough_engines"] = [_hist("lib", sc, "C13", w) for sc, w in [
     ("change_during_apply_is_not_lost", "a configuration change made while the previous one is being applied is applied")]]
 PROPS["C18"]["thorough_engines"] = PROPS["C18"]["fallback"]
 PROPS["C08"]["thorough_engines"] = PROPS["C08"]["fallback"]
+PROPS["C11"]["thorough_engines"] = [replay_engine("ignorefiles", "globset_rule_bounded", "C11.bounded.verdict_is_the_documented_rule",
+    "the real GlobsetFilterer on 4 configurations x all events of 1..2 paths over 7 file names x 3 file types (1848 events): the verdict equals the documented rule; watched-file and path-less events pass")]
+PROPS["C12"]["thorough_engines"] = [script_engine("cli_flag_sources.py", "cli_flag_sources", "C12.bounded.flags_remove_exactly_the_named_sources",
+    "10 flag sets x 6 ignore sources (project .gitignore/.ignore, global git/watchexec ignore, --ignore-file, --ignore) on the real binary: each source is honoured exactly when no given flag names it")]
 PROPS["C14"]["thorough_engines"] = [replay_engine("ignorefiles", "discovery_exact_on_a_small_tree", "C14.bounded.discovery_exact_on_a_small_tree",
     "from_origin on one hand-made tree (prefix-named siblings, two ignore files in one directory, an ignored subtree, a VCS metadata directory, an empty file, nested directories): exactly the applicable files, each tagged with its directory")]
